@@ -198,7 +198,7 @@ def do_call(spec):
         return st
 
     try:
-        if fn.startswith("place_"):
+        if fn.startswith("place_") and fn != "place_sa_pinned":
             m, vr, nets, cons = gen_problem(seed, vary)
             args = [m, vr, nets, cons]
             before = [snap(a) for a in args]
@@ -222,6 +222,108 @@ def do_call(spec):
                      "breadth_first": breadth_first}[which].place(vr, nets, m, cons)
             result = sorted((v, list(c)) for v, c in p.items())
             raws.append(p)
+        elif fn in ("wrapper", "pr_wrapper"):
+            # the two public wrappers (the deprecated `wrapper` and `place_and_route_wrapper`) with every
+            # combination of their boolean options, with and without a constraints list of the caller's
+            import importlib
+            wrapper_mod = importlib.import_module("rig.place_and_route.wrapper")
+            m, vr, nets, cons = gen_problem(seed, vary)
+            r = random.Random(seed + 11)
+            vapps = {v: "app%d.aplx" % (v % 3) for v in vr}
+            net_keys = {net: (i << 8, 0xffffff00) for i, net in enumerate(nets)}
+            use_cons = r.random() < 0.7
+            placer = r.choice([sequential.place, hilbert.place, breadth_first.place])
+            if fn == "wrapper":
+                args = [vr, vapps, nets, net_keys, m] + ([cons] if use_cons else [])
+                before = [snap(a) for a in args]
+                out = wrapper_mod.wrapper(*args, reserve_monitor=r.random() < 0.5, align_sdram=r.random() < 0.5,
+                                          place=placer)
+            else:
+                from rig.machine_control.machine_controller import SystemInfo, ChipInfo
+                from rig.machine_control.consts import AppState
+                from rig.links import Links as L
+                from rig.place_and_route import Cores as C_, SDRAM as S_
+                chips = {}
+                for (x, y) in m:
+                    busy = r.sample(range(1, 18), r.choice([0, 0, 1, 3]))
+                    states = [AppState.run] + [AppState.run if i in busy else AppState.idle for i in range(1, 18)]
+                    links = set(l for l in L if (x, y, l) in m)
+                    chips[(x, y)] = ChipInfo(num_cores=18, core_states=states, working_links=links,
+                                             largest_free_sdram_block=m[(x, y)].get(S_, 128) * 1024,
+                                             largest_free_sram_block=1000, largest_free_rtr_mc_block=r.choice([8, 1023]))
+                si = SystemInfo(m.width, m.height, chips)
+                cons = [c for c in cons if type(c).__name__ != "ReserveResourceConstraint"]
+                args = [vr, vapps, nets, net_keys, si] + ([cons] if use_cons else [])
+                before = [snap(a) for a in args]
+                out = wrapper_mod.place_and_route_wrapper(*args, place=placer)
+            pl, al, amap, tabs = out
+            result = [sorted((v, list(c)) for v, c in pl.items()),
+                      sorted((v, sorted((str(k), s.start, s.stop) for k, s in d.items())) for v, d in al.items()),
+                      sorted((a, sorted((list(c), sorted(ps)) for c, ps in t.items())) for a, t in amap.items()),
+                      table_canon(tabs)]
+            raws += [pl, al, amap, tabs]
+        elif fn == "place_sa_pinned":
+            # the annealing placer on a problem with a pinned vertex and several same-chip groups, both kernels,
+            # seeded generator, vertices_resources an OrderedDict (what the documentation asks for to get
+            # reproducible results).  The very same problem is placed three times with vertex objects that are
+            # equal call to call but HASH differently (so every set / dict-by-hash the placer builds iterates in
+            # another order): the three placements must be the same.
+            from rig.place_and_route.constraints import LocationConstraint, SameChipConstraint
+            from rig.place_and_route.place.sa import place as sa_direct
+            from rig.place_and_route.place.sa.python_kernel import PythonKernel
+            from rig.netlist import Net
+            import collections as _c
+            from rig.place_and_route import Cores as C_
+            m, vr0, nets0, cons0 = gen_problem(seed, vary)
+            r = random.Random(seed + 23)
+            cons0 = [c for c in cons0 if not isinstance(c, (LocationConstraint, SameChipConstraint))]
+            # vertices big enough that only two or three fit on a chip: the order in which the placer takes
+            # them then shows in the result
+            capacity = sum(max(0, m[c].get(C_, 0) - 1) for c in m)
+            per = max(1, min(8, int(0.5 * capacity / max(1, len(vr0)))))
+            vr0 = {v: dict(list(d.items()) + [(C_, max(1, per + r.choice([-1, 0, 0, 1])))]) for v, d in sorted(vr0.items())}
+            vs = sorted(vr0)
+            r.shuffle(vs)
+            pin = (vs[0], r.choice([c for c in m]))
+            rest = vs[1:]
+            groups = []
+            while len(rest) >= 4 and r.random() < 0.8:
+                groups.append([rest.pop(), rest.pop()])
+            kw = {}
+            if r.random() < 0.5:
+                kw["kernel"] = PythonKernel
+
+            class HV(object):
+                __slots__ = ["i", "h"]
+
+                def __init__(self, i, h):
+                    self.i, self.h = i, h
+
+                def __hash__(self):
+                    return self.h
+
+                def __eq__(self, o):
+                    return isinstance(o, HV) and o.i == self.i
+
+                def __ne__(self, o):
+                    return not self == o
+
+                def __lt__(self, o):
+                    return self.i < o.i
+
+                def __repr__(self):
+                    return "v%d" % self.i
+            result = []
+            for rep in range(3):
+                hs = {i: [i, (i * 7919 + 13) % 1000003, (i * 104729 + 7) % 4093][rep] for i in vr0}
+                V = {i: HV(i, hs[i]) for i in vr0}
+                vr = _c.OrderedDict((V[i], dict(vr0[i])) for i in sorted(vr0))
+                nets = [Net(V[n_.source], [V[x] for x in n_.sinks], n_.weight) for n_ in nets0]
+                cons = list(cons0) + [LocationConstraint(V[pin[0]], pin[1])] + [SameChipConstraint([V[a], V[b]]) for a, b in groups]
+                p = sa_direct(vr, nets, m, cons, effort=0.1, random=random.Random(seed), **kw)
+                result.append(sorted((v.i, list(c)) for v, c in p.items()))
+            if not (result[0] == result[1] == result[2]):
+                result = ["not-reproducible"] + result
         elif fn == "allocate":
             st = staged("placed")
             args = [st["m"], st["vr"], st["nets"], st["cons"], st["placements"]]
@@ -445,7 +547,7 @@ def do_call(spec):
     return result, before, after
 
 
-FNS = ["place_sequential", "place_seqcustom", "place_seqcustom", "place_hilbert", "place_rcm", "place_breadth_first", "place_rand", "place_sa",
+FNS = ["wrapper", "wrapper", "pr_wrapper", "place_sa_pinned", "place_sa_pinned", "place_sa_pinned", "place_sequential", "place_seqcustom", "place_seqcustom", "place_hilbert", "place_rcm", "place_breadth_first", "place_rand", "place_sa",
        "allocate", "route", "route", "tables", "minimise_tables", "minimise_oc", "minimise_rdr", "oc_aliases", "oc_aliases", "oc_default", "oc_default", "bitfield", "bitfield_tagsets", "controller", "boot", "hexagons", "hexagons"]
 
 
